@@ -98,6 +98,9 @@ Section Lens.
   Definition set_zs (l : lens) (zs : list T) : lens :=
     with_surfs l (map (fun '(j, s) => with_z s (getZ zs j)) (enumZ (surfs l))).
 
+  (** SurfaceGroup.conic / getattr(geometry, 'k', 0): a flat surface without the attribute reads 0 *)
+  Definition conic_read (s : surf) : T := match s_k s with Some k => k | None => ofZ 0 end.
+
   (** ** Optic.set_radius / set_conic / set_thickness / set_index / set_asphere_coeff *)
   Definition set_radius (l : lens) (v : T) (k : Z) : option lens :=
     match nthS l k with
@@ -105,7 +108,7 @@ Section Lens.
     | Some s =>
         Some (upd_surf l k (fun s =>
           match s_kind s with
-          | GPlane => with_geom s GStd v (Some (ofZ 0)) (s_c s)     (* StandardGeometry(cs, radius=value, conic=0) *)
+          | GPlane => with_geom s GStd v (Some (conic_read s)) (s_c s)   (* StandardGeometry(cs, radius=value, conic=getattr(geometry, 'k', 0)) *)
           | g => with_geom s g v (s_k s) (s_c s)
           end))
     end.
@@ -219,7 +222,7 @@ Section Lens.
     | Some s =>
         match pk_attr p with
         | ARadius => Some (s_R s)
-        | AConic => s_k s                              (* a Plane has no attribute k: AttributeError *)
+        | AConic => Some (conic_read s)                (* getattr(surface.geometry, 'k', 0) *)
         | AThickness => if (pk_src p + 1 <? nsurf l)%Z
                         then Some (k_c01_get_thickness O (pk_src p) (positions l)) else None
         end
@@ -246,7 +249,7 @@ Section Lens.
     let '(idx, h) := sv in
     if inb (surfs l) idx then
       let mr := marginal l in
-      Some (set_zs l (k_c01_mrh_apply O (map fst mr) (map snd mr) h idx (positions l) (nsurf l)))
+      Some (set_zs l (k_c01_mrh_apply O (map fst mr) (map snd mr) idx h (positions l) (nsurf l)))
     else None.
 
   Definition image_solve (l : lens) : option lens :=
@@ -321,7 +324,6 @@ Section Lens.
   Definition thickness (l : lens) (k : Z) : T := k_c01_get_thickness O k (positions l).
   Definition n_post (l : lens) : list T := map (fun s => index_of l (s_mpost s)) (surfs l).
   Definition n_pre (l : lens) : list T := map (fun s => index_of l (s_mpre s)) (surfs l).
-  Definition conic_read (s : surf) : T := match s_k s with Some k => k | None => ofZ 0 end.  (* SurfaceGroup.conic *)
   Fixpoint first_true_from (i : nat) (bs : list bool) : option nat :=
     match bs with [] => None | b :: bs' => if b then Some i else first_true_from (S i) bs' end.
   Definition stop_index (l : lens) : option nat := first_true_from 0 (map s_stop (surfs l)).
